@@ -43,6 +43,7 @@ from fractions import Fraction
 
 from ..engine.runner import BaseCheck, ShardResult
 from ..engine import progen_c11 as pg
+from ..engine import loader
 from ..engine.loader import load_source
 
 import fpy2 as fp
@@ -706,8 +707,9 @@ class Check(BaseCheck):
             case_base = {'program': prog.to_json()}
             if b.bid in broken:
                 r.count('evaluations', nopt)
-                r.violate({'kind': 'emitted C++ rejected by g++', 'family': prog.desc[0], 'shape': prog.shape,
-                           'unbox': b.opts[0][1], 'gxx': _norm_err(broken[b.bid])},
+                # the shape without widths: an ill-formed emission is a matter of program structure
+                r.violate({'kind': 'emitted C++ rejected by g++', 'family': prog.desc[0],
+                           'shape': prog.shape.split(':w')[0], 'unbox': b.opts[0][1], 'gxx': _norm_err(broken[b.bid])},
                           dict(case_base, options=list(b.opts[0]), vector=None),
                           f'{prog.shape} [{opt_label(b.opts[0])}]: g++ refuses the emitted code\n{broken[b.bid][-800:]}\n{b.text}')
                 continue
@@ -794,6 +796,7 @@ class Check(BaseCheck):
         r.count('cpu_ms_python', int(1000 * (time.process_time() - c0)))
         r.count('cpu_ms_gxx_and_run', int(1000 * ((ch1.ru_utime + ch1.ru_stime) - (ch0.ru_utime + ch0.ru_stime))))
         reset_interpreter()
+        _drop_loader_scratch()
         return r
 
     # ------------------------------------------------------------------
@@ -808,11 +811,20 @@ class Check(BaseCheck):
         keep = []
         results, broken, crashes = self.build_and_run(blocks, r, keep_src=keep)
         self.judge(blocks, results, broken, crashes, r)
+        _drop_loader_scratch()
         if r.violations:
             return True, '\n'.join(v.detail for v in r.violations)
         b = blocks[0]
         return False, (f'{prog.shape} [{opt_label(opt)}] args={vec!r}: interpreter '
                        f'{show(b.expect[0][0]) if b.mask[0] else "raises"}; compiled {results}')
+
+
+def _drop_loader_scratch():
+    """pool workers end without running atexit handlers: remove this process's module scratch directory now
+    (the loader makes a new one on demand)"""
+    d = getattr(loader, '_DIR', None)
+    if d and getattr(loader, '_PID', None) == os.getpid():
+        shutil.rmtree(d, ignore_errors=True)
 
 
 def _norm_err(text: str) -> str:
